@@ -177,7 +177,12 @@ void XMLGrammarPoolImpl::lockPool()
                     {
                         RefHashTableOfEnumerator<ComplexTypeInfo> typeEnum(typeRegistry, false, memMgr);
                         while (typeEnum.hasMoreElements())
-                            typeEnum.nextElement().getContentModel();
+                        {
+                            ComplexTypeInfo& typeInfo = typeEnum.nextElement();
+                            typeInfo.getContentModel();
+                            // used in error messages, faulted in lazily too
+                            typeInfo.getFormattedContentModel();
+                        }
                     }
                 }
                 else if (grammar.getGrammarType() == Grammar::DTDGrammarType)
@@ -193,6 +198,8 @@ void XMLGrammarPoolImpl::lockPool()
                         if (elemDecl.getModelType() != DTDElementDecl::Empty &&
                             elemDecl.getModelType() != DTDElementDecl::Any)
                             elemDecl.getContentModel();
+                        // used in error messages, faulted in lazily too
+                        elemDecl.getFormattedContentModel();
                     }
                 }
             }
